@@ -4,6 +4,8 @@ From Verif Require Import C14I.ISyn.
 Import ListNotations.
 Open Scope string_scope.
 Open Scope list_scope.
+(* simpl / injection / inversion must not compute with the label offset 2^32 *)
+Opaque FB.
 
 Section Proofs.
   Variable Wd : Type.
@@ -145,19 +147,21 @@ Section Proofs.
     Qed.
 
     Variable P : prog.
-    Hypothesis HF : nth_func P cf = F.
-    Hypothesis HG : nth_func P g = G.
+    (* wrapped so that a bare `subst` never eliminates the section variables F, G *)
+    Definition is_fn (Q : prog) (k : nat) (H : func) : Prop := nth_func Q k = H.
+    Hypothesis HF0 : is_fn P cf F.
+    Hypothesis HG0 : is_fn P g G.
     Hypothesis Hne : cf <> g.
     Let P' := set_nth P cf F'.
 
     Lemma cf_lt : cf < List.length P.
     Proof.
-      destruct (Nat.lt_ge_cases cf (List.length P)); [auto|]. exfalso. unfold nth_func in HF. rewrite nth_overflow in HF by lia.
+      pose proof (HF0 : nth_func P cf = F) as HF. destruct (Nat.lt_ge_cases cf (List.length P)); [auto|]. exfalso. unfold nth_func in HF. rewrite nth_overflow in HF by lia.
       unfold B, nth_block in Hinv. rewrite <- HF in Hinv. destruct sb; destruct idx; discriminate.
     Qed.
     Lemma P'_cf : nth_func P' cf = F'. Proof. apply set_nth_same. apply cf_lt. Qed.
     Lemma P'_other : forall f, f <> cf -> nth_func P' f = nth_func P f. Proof. intros. apply set_nth_other. auto. Qed.
-    Lemma P'_g : nth_func P' g = G. Proof. rewrite P'_other by auto. exact HG. Qed.
+    Lemma P'_g : nth_func P' g = G. Proof. rewrite P'_other by auto. exact HG0. Qed.
 
     (* position map of the caller *)
     Definition in_post (b pc : nat) : bool := Nat.eqb b sb && Nat.ltb idx pc.
@@ -181,7 +185,7 @@ Section Proofs.
     Lemma instr_pm : forall b pc i, instr_at P cf b pc = Some i -> is_phi i = false -> (b = sb /\ pc = idx -> False) ->
       instr_at P' cf (pmb b pc) (pmp b pc) = Some i.
     Proof.
-      intros b pc i E Hp Ns. unfold instr_at in *. rewrite HF in E. rewrite P'_cf. pose proof (block_lt _ _ _ E) as Hb.
+      intros b pc i E Hp Ns. pose proof (HF0 : nth_func P cf = F) as HF. unfold instr_at in *. rewrite HF in E. rewrite P'_cf. pose proof (block_lt _ _ _ E) as Hb.
       unfold pmb, pmp, in_post. destruct (Nat.eqb_spec b sb) as [->|Nb]; cbn [andb].
       - destruct (Nat.ltb_spec idx pc) as [L|L].
         + rewrite F'_ret. unfold post. rewrite nth_error_skipn'. replace (S idx + (pc - idx - 1)) with pc by lia. exact E.
@@ -296,7 +300,7 @@ Section Proofs.
       e <<= e' -> enter (nth_block F (N.to_nat l)) b e = Some (e1, pc1) ->
       exists e1', enter (nth_block F' (N.to_nat l)) (pmb b pc) e' = Some (e1', pc1) /\ e1 <<= e1' /\ in_post (N.to_nat l) pc1 = false.
     Proof.
-      intros b pc i l e e' e1 pc1 E J Il Ll Hext En. unfold instr_at in E. rewrite HF in E.
+      intros b pc i l e e' e1 pc1 E J Il Ll Hext En. pose proof (HF0 : nth_func P cf = F) as HF. unfold instr_at in E. rewrite HF in E. clear HF.
       assert (C : is_ctl i = true) by (unfold is_ctl; unfold is_jump in J; destruct (is_op "jmp" i); destruct (is_op "jnz" i); destruct (is_op "djmp" i); auto; discriminate).
       pose proof (ctl_last _ _ _ E C) as Last. pose proof (block_lt _ _ _ E) as Hb.
       set (L := N.to_nat l) in *.
@@ -333,7 +337,7 @@ Section Proofs.
         - assert (Nb : b <> sb).
           { intros ->. unfold in_post in IP. rewrite Nat.eqb_refl in IP. cbn in IP. apply Nat.ltb_ge in IP.
             fold B in E, Last. pose proof (nth_error_lt _ _ _ _ Hinv). destruct (Nat.eq_dec pc idx) as [->|]; [|lia].
-            rewrite Hinv in E. injection E as <-. exact (Bool.diff_false_true J). }
+            rewrite Hinv in E. apply (f_equal (fun o => match o with Some x => is_jump x | None => true end)) in E. rewrite J in E. exact (Bool.diff_false_true E). }
           destruct (existsb (N.eqb (N.of_nat L)) succs).
           + rewrite lead_phis_map_fix, LX, map_length. split; [|reflexivity].
             rewrite (phi_vals_fix _ (N.of_nat b) (N.of_nat b) e'); [exact Pv'| |right; split; [reflexivity|split; unfold sbN, nN; lia]].
@@ -418,7 +422,8 @@ Section Proofs.
     Proof.
       induction os as [|o os IH]; intros vs eg ec e2 eg1 HR Dg Dc Io U; destruct vs as [|v vs]; cbn [ISyn.upd_many map] in *; try discriminate.
       - inversion U; subst. eauto.
-      - eapply IH; [| | | |exact U]; [apply Rel_upd; auto|apply dom_upd; auto|auto|auto].
+      - assert (Io1 : In o VG) by (apply Io; left; reflexivity).
+        eapply IH; [| | | |exact U]; [apply Rel_upd; auto|apply dom_upd; auto|auto|intros o0 I0; apply Io; right; exact I0].
     Qed.
     (* an update of a caller variable in the merged frame *)
     Lemma Rel_upd_caller : forall eg ec e2 x v, Rel eg ec e2 -> dom_in eg VG -> In x VF -> Rel eg (upd ec x v) (upd e2 x v).
@@ -462,32 +467,33 @@ Section Proofs.
     Qed.
 
     (* the conjuncts of callee_ok *)
-    Lemma calleeG : exists b0 rest, G = b0 :: rest /\
+    Lemma callee_inv : forall (G0 : func) (k : nat), callee_ok G0 k = true -> exists b0 rest, G0 = b0 :: rest /\
       forallb (fun b => forallb (fun i => negb (is_param i)) b) rest = true /\
       forallb (fun i => if is_param i then match i_outs i with [_] => match i_args i with [] => true | _ => false end | _ => false end else true) b0 = true /\
-      forallb (fun i => negb (is_op "djmp" i)) (func_insts G) = true /\
+      forallb (fun i => negb (is_op "djmp" i)) (func_insts G0) = true /\
       lead_phis b0 = [] /\
-      forallb (fun i => if is_op "jmp" i || is_op "jnz" i || is_phi i
-                        then forallb (fun o => match o with OLab l => negb (N.eqb l 0) | _ => true end) (i_args i) else true) (func_insts G) = true /\
+      forallb (fun i => if is_op "jmp" i || is_op "jnz" i
+                        then forallb (fun o => match o with OLab l => negb (N.eqb l 0) | _ => true end) (i_args i) else true) (func_insts G0) = true /\
       forallb (fun i => if is_op "ret" i
-                        then Nat.eqb (List.length (removelast (i_args i))) (List.length outs) &&
+                        then Nat.eqb (List.length (removelast (i_args i))) k &&
                              forallb (fun o => match o with OLab _ => false | _ => true end) (removelast (i_args i)) &&
                              negb (match i_args i with [] => true | _ => false end) &&
                              match i_outs i with [] => true | _ => false end
-                        else true) (func_insts G) = true.
+                        else true) (func_insts G0) = true.
     Proof.
-      unfold callee_ok in HcalleeG. destruct G as [|b0 rest]; [discriminate|]. exists b0, rest. split; [reflexivity|].
-      repeat (apply andb_prop in HcalleeG; destruct HcalleeG as [HcalleeG ?]).
+      intros G0 k H. unfold callee_ok in H. destruct G0 as [|b0 rest]; [discriminate|]. exists b0, rest. split; [reflexivity|].
+      repeat (apply andb_prop in H; destruct H as [H ?]).
       repeat split; auto. destruct (lead_phis b0); [reflexivity|discriminate].
     Qed.
+    Definition calleeG := callee_inv G (List.length outs) HcalleeG.
 
     Lemma G_param : forall j pc i, nth_error (nth_block G j) pc = Some i -> is_param i = true -> j = 0 /\ exists o, i_outs i = [o] /\ i_args i = [].
     Proof.
       intros j pc i E Pm. destruct calleeG as [b0 [rest [EG [A [Bq _]]]]]. destruct j as [|j].
-      - split; [reflexivity|]. rewrite EG in E. cbn in E. rewrite forallb_forall in Bq. specialize (Bq i (nth_error_In _ _ E)). rewrite Pm in Bq.
+      - split; [reflexivity|]. rewrite EG in E. cbn [nth_block nth] in E. rewrite forallb_forall in Bq. specialize (Bq i (nth_error_In _ _ E)). rewrite Pm in Bq.
         destruct (i_outs i) as [|o [|]]; try discriminate. destruct (i_args i); try discriminate. eauto.
-      - exfalso. pose proof (blockG_lt _ _ _ E) as Lt. rewrite EG in E, Lt. unfold nG in Lt. cbn in E, Lt.
-        rewrite forallb_forall in A. assert (I : In (nth j rest []) rest) by (apply nth_In; unfold nG in Lt; cbn in Lt; lia).
+      - exfalso. pose proof (blockG_lt _ _ _ E) as Lt. unfold nG in Lt. rewrite EG in E, Lt. cbn [nth_block nth List.length] in E, Lt.
+        rewrite forallb_forall in A. assert (I : In (nth j rest []) rest) by (apply nth_In; lia).
         specialize (A _ I). rewrite forallb_forall in A. specialize (A i (nth_error_In _ _ E)). rewrite Pm in A. discriminate.
     Qed.
     Lemma G_nodjmp : forall j pc i, nth_error (nth_block G j) pc = Some i -> is_op "djmp" i = false.
@@ -495,7 +501,7 @@ Section Proofs.
       intros j pc i E. destruct calleeG as [b0 [rest [EG [_ [_ [A _]]]]]]. rewrite forallb_forall in A.
       specialize (A i (in_insts G _ _ _ E (blockG_lt _ _ _ E))). apply negb_true_iff in A. exact A.
     Qed.
-    Lemma G_nozero : forall j pc i l, nth_error (nth_block G j) pc = Some i -> is_op "jmp" i || is_op "jnz" i || is_phi i = true ->
+    Lemma G_nozero : forall j pc i l, nth_error (nth_block G j) pc = Some i -> is_op "jmp" i || is_op "jnz" i = true ->
       In (OLab l) (i_args i) -> l <> 0%N.
     Proof.
       intros j pc i l E Op I. destruct calleeG as [b0 [rest [EG [_ [_ [_ [_ [A _]]]]]]]]. rewrite forallb_forall in A.
@@ -574,7 +580,7 @@ Section Proofs.
       pcount (firstn (S pc) blk) = pcount (firstn pc blk) + (if is_param i then 1 else 0).
     Proof.
       induction blk as [|a blk IH]; intros pc i E; destruct pc; cbn in E; try discriminate.
-      - inversion E; subst. unfold pcount. cbn. destruct (is_param i); reflexivity.
+      - inversion E; subst. unfold pcount. cbn [firstn filter]. destruct (is_param i); reflexivity.
       - specialize (IH pc i E). unfold pcount in *. cbn [firstn filter] in *. destruct (is_param a); cbn [List.length]; rewrite IH; lia.
     Qed.
 
@@ -627,7 +633,7 @@ Section Proofs.
       - inversion E; subst. reflexivity.
       - destruct (Hall i (or_introl eq_refl)) as [o [Ho Ha]]. unfold ren_inst at 1. cbn [i_outs i_args]. rewrite Ho in *. cbn [map].
         destruct (phi_src (i_args i) (N.of_nat j)) as [src|] eqn:Ps; [|discriminate].
-        destruct (phi_src_ren _ _ _ Ha Ps) as [Ps' Ol]. rewrite Ps'.
+        destruct (phi_src_ren _ _ _ Ha Ps) as [Ps' Ol]. change (i_args (RI i)) with (map RO (i_args i)). rewrite Ps'.
         destruct (oval eg src) as [v|] eqn:Ov; [|discriminate]. destruct (phi_vals phis (N.of_nat j) eg) as [vs'|] eqn:Pv; [|discriminate].
         inversion E; subst vs. rewrite (oval_ren _ _ _ _ _ HR Ol Ov). rewrite (IH j eg ec e2 vs'); auto.
         intros i' I'. apply Hall. right. exact I'.
@@ -794,8 +800,8 @@ Section Proofs.
       induction Hex; intros Hf e2 HR Dg Hp HK; subst f.
       - (* assign *)
         pose proof (instr_G _ _ _ H) as E.
-        pose proof (head_clone _ _ _ E eq_refl eq_refl) as Hc. cbn [ren_inst i_op i_args i_outs map] in Hc.
-        pose proof (G_nolab _ _ _ E eq_refl) as Nl. cbn [i_args] in Nl. inversion Nl; subst.
+        pose proof (head_clone _ _ _ E eq_refl eq_refl) as Hc. unfold ren_inst in Hc. cbn [i_op i_args i_outs map] in Hc.
+        pose proof (G_nolab _ _ _ E eq_refl) as Nl. cbn [i_args] in Nl. inversion Nl as [|? ? Nl1 Nl2].
         eapply e_assign; [exact Hc|eapply oval_ren; eauto|].
         apply IHHex; auto.
         + apply Rel_upd; auto. eapply G_outs; eauto. left. reflexivity.
@@ -827,11 +833,11 @@ Section Proofs.
         destruct (modelled_false _ H0) as [M1 [M2 [M3 [M4 M5]]]].
         pose proof (head_clone _ _ _ E M1 M2) as Hc.
         assert (Nl : Forall olab_ok (i_args i)) by (apply (G_nolab _ _ _ E); unfold is_phi, is_op; rewrite M3, M4, M5; reflexivity).
-        cbn in HK. subst R.
+        cbn in HK. rewrite HK.
         change (i_op i) with (i_op (RI i)). eapply e_halt; [exact Hc|exact H0|cbn [ren_inst i_args]; eapply ovals_ren; eauto|exact H2].
       - (* jmp *)
         pose proof (instr_G _ _ _ H) as E.
-        pose proof (head_clone _ _ _ E eq_refl eq_refl) as Hc. cbn [ren_inst i_op i_args i_outs map ren_op] in Hc.
+        pose proof (head_clone _ _ _ E eq_refl eq_refl) as Hc. unfold ren_inst in Hc. cbn [i_op i_args i_outs map ren_op] in Hc.
         pose proof (block_ok_G _ (blockG_lt _ _ _ E)) as K. unfold block_ok in K. apply andb_prop in K. destruct K as [_ K].
         rewrite forallb_forall in K. specialize (K _ (nth_error_In _ _ E)). cbn in K. apply N.ltb_lt in K.
         replace (N.ltb l nGN) with true in Hc by (symmetry; apply N.ltb_lt; exact K).
@@ -845,7 +851,7 @@ Section Proofs.
           apply IHHex; auto. intros Z0. contradiction.
       - (* jnz *)
         pose proof (instr_G _ _ _ H) as E.
-        pose proof (head_clone _ _ _ E eq_refl eq_refl) as Hc. cbn [ren_inst i_op i_args i_outs map ren_op] in Hc.
+        pose proof (head_clone _ _ _ E eq_refl eq_refl) as Hc. unfold ren_inst in Hc. cbn [i_op i_args i_outs map ren_op] in Hc.
         pose proof (block_ok_G _ (blockG_lt _ _ _ E)) as K. unfold block_ok in K. apply andb_prop in K. destruct K as [_ K].
         rewrite forallb_forall in K. specialize (K _ (nth_error_In _ _ E)). cbn in K.
         apply andb_prop in K. destruct K as [K K3]. apply andb_prop in K. destruct K as [K1 K2]. apply N.ltb_lt in K1. apply N.ltb_lt in K2.
@@ -869,19 +875,19 @@ Section Proofs.
         pose proof (instr_G _ _ _ H) as E. pose proof (G_nodjmp _ _ _ E) as Q. discriminate.
       - (* invoke of another function inside the callee *)
         pose proof (instr_G _ _ _ H) as E.
-        pose proof (head_clone _ _ _ E eq_refl eq_refl) as Hc. cbn [ren_inst i_op i_args i_outs map ren_op] in Hc.
+        pose proof (head_clone _ _ _ E eq_refl eq_refl) as Hc. unfold ren_inst in Hc. cbn [i_op i_args i_outs map ren_op] in Hc.
         replace (N.ltb (FB + N.of_nat g0) nGN) with false in Hc by (symmetry; apply N.ltb_ge; unfold nGN; lia).
-        pose proof (G_nolab _ _ _ E eq_refl) as Nl. cbn [i_args] in Nl. inversion Nl; subst.
+        pose proof (G_nolab _ _ _ E eq_refl) as Nl. cbn [i_args] in Nl. inversion Nl as [|? ? Nl1 Nl2].
         destruct (Rel_upd_many _ _ _ _ _ _ HR Dg Dc (fun o0 I => G_outs _ _ _ o0 E I) H1) as [e21 [U2 [HR2 Dg2]]].
         eapply e_invoke; [exact Hc|eapply ovals_ren; eauto|exact Hex1|exact U2|].
         apply IHHex2; auto.
         intros ->. rewrite (pcount_S _ _ _ E). cbn. rewrite Nat.add_0_r. auto.
       - (* invoke that halts *)
         pose proof (instr_G _ _ _ H) as E.
-        pose proof (head_clone _ _ _ E eq_refl eq_refl) as Hc. cbn [ren_inst i_op i_args i_outs map ren_op] in Hc.
+        pose proof (head_clone _ _ _ E eq_refl eq_refl) as Hc. unfold ren_inst in Hc. cbn [i_op i_args i_outs map ren_op] in Hc.
         replace (N.ltb (FB + N.of_nat g0) nGN) with false in Hc by (symmetry; apply N.ltb_ge; unfold nGN; lia).
-        pose proof (G_nolab _ _ _ E eq_refl) as Nl. cbn [i_args] in Nl. inversion Nl; subst.
-        cbn in HK. subst R.
+        pose proof (G_nolab _ _ _ E eq_refl) as Nl. cbn [i_args] in Nl. inversion Nl as [|? ? Nl1 Nl2].
+        cbn in HK. rewrite HK.
         eapply e_invoke_halt; [exact Hc|eapply ovals_ren; eauto|exact Hex].
       - (* ret: assignments to the call-site outputs, then jump to the continuation *)
         pose proof (instr_G _ _ _ H) as E.
@@ -911,15 +917,270 @@ Section Proofs.
             -- eapply in_vars; [exact Hinv|exact sb_lt|]. apply out_in_vars. exact Jy.
           * destruct (N.ltb l0 nGN); discriminate.
         + (* the jump to the continuation *)
-          destruct (ret_clone _ _ _ (List.length rv) E eq_refl) as [Q|Q].
-          2:{ cbn [i_args] in Q. fold rv in Q. rewrite map_length, combine_length in Q. unfold rv in Q at 2. rewrite map_length in Q. lia. }
-          cbn [i_args] in Q. fold rv in Q. rewrite nth_error_app2 in Q; [|rewrite map_length, combine_length; unfold rv; rewrite map_length; lia].
-          replace (List.length rv - List.length (map (fun vo : operand * N => mkI "assign" [fst vo] [snd vo]) (combine rv outs))) with 0 in Q
-            by (rewrite map_length, combine_length; unfold rv; rewrite map_length; lia).
-          cbn [nth_error] in Q.
+          assert (Lrv : List.length rv = List.length outs) by (unfold rv; rewrite map_length; exact Ln).
+          assert (Lasg : List.length (map (fun vo : operand * N => mkI "assign" [fst vo] [snd vo]) (combine rv outs)) = List.length rv)
+            by (rewrite map_length, combine_length; lia).
+          destruct (ret_clone _ _ _ (List.length rv) E eq_refl) as [Q|Q]; cbn [i_args] in Q; fold rv in Q; [|lia].
+          rewrite nth_error_app2 in Q by lia. rewrite Lasg, Nat.sub_diag in Q. cbn [nth_error] in Q.
           eapply e_jmp; [exact Q| |].
           * rewrite P'_cf. unfold nN. rewrite Nat2N.id. rewrite F'_ret. unfold ISyn.enter. rewrite post_nophi. cbn. reflexivity.
           * unfold nN. rewrite Nat2N.id. apply (HK ecv efin Um Hext).
     Qed.
+
+    (* ---------- the caller ---------- *)
+    Lemma pm_next : forall b pc, ~ (b = sb /\ pc = idx) -> pmb b (S pc) = pmb b pc /\ pmp b (S pc) = S (pmp b pc).
+    Proof.
+      intros b pc Ns. unfold pmb, pmp, in_post. destruct (Nat.eqb_spec b sb) as [->|Nb]; cbn [andb]; [|auto].
+      destruct (Nat.ltb_spec idx pc); destruct (Nat.ltb_spec idx (S pc)); try lia; auto.
+    Qed.
+    Lemma pm_site : pmb sb idx = sb /\ pmp sb idx = idx.
+    Proof. unfold pmb, pmp, in_post. rewrite Nat.eqb_refl, Nat.ltb_irrefl. auto. Qed.
+    Lemma pm_after : pmb sb (S idx) = n /\ pmp sb (S idx) = 0.
+    Proof. unfold pmb, pmp, in_post. rewrite Nat.eqb_refl. replace (Nat.ltb idx (S idx)) with true by (symmetry; apply Nat.ltb_lt; lia). cbn [andb]. split; [reflexivity|lia]. Qed.
+    Lemma pm_entry : pmb 0 0 = 0 /\ pmp 0 0 = 0.
+    Proof. unfold pmb, pmp, in_post. replace (Nat.ltb idx 0) with false by (symmetry; apply Nat.ltb_ge; lia). rewrite andb_false_r. auto. Qed.
+
+    Lemma instr_F : forall b pc, instr_at P cf b pc = nth_error (nth_block F b) pc.
+    Proof. intros. unfold instr_at. rewrite (HF0 : nth_func P cf = F). reflexivity. Qed.
+    Lemma not_site : forall b pc i, instr_at P cf b pc = Some i -> i_op i <> "invoke" -> ~ (b = sb /\ pc = idx).
+    Proof.
+      intros b pc i E Op [-> ->]. rewrite instr_F in E. fold B in E. rewrite Hinv in E.
+      apply (f_equal (fun o => match o with Some x => i_op x | None => "" end)) in E. cbn [i_op] in E. congruence.
+    Qed.
+    Lemma F_outs : forall b pc i x, instr_at P cf b pc = Some i -> In x (i_outs i) -> In x VF.
+    Proof. intros b pc i x E I. rewrite instr_F in E. eapply in_vars; [exact E|eapply block_lt; eauto|apply out_in_vars; exact I]. Qed.
+    Lemma dom_fold : forall (vs : list (N * Z)) e V, dom_in e V -> (forall ov, In ov vs -> In (fst ov) V) ->
+      dom_in (fold_left (fun e' ov => upd e' (fst ov) (snd ov)) vs e) V.
+    Proof.
+      induction vs as [|[o v] vs IH]; intros e V D Hin; cbn [fold_left fst snd]; [exact D|].
+      apply IH; [apply dom_upd; auto; apply (Hin (o, v)); left; reflexivity|intros ov I; apply Hin; right; exact I].
+    Qed.
+    Lemma enter_dom : forall b0 b e e1 pc1, b0 < n -> dom_in e VF -> enter (nth_block F b0) b e = Some (e1, pc1) -> dom_in e1 VF.
+    Proof.
+      intros b0 b e e1 pc1 Lb D En. unfold ISyn.enter in En.
+      destruct (phi_vals (lead_phis (nth_block F b0)) (N.of_nat b) e) as [vs|] eqn:Pv; [|discriminate]. inversion En; subst e1 pc1.
+      apply dom_fold; [exact D|]. intros ov I. destruct (phi_vals_outs _ _ _ _ Pv ov I) as [i [Ii Io]].
+      apply lead_phis_in in Ii. apply In_nth_error in Ii. destruct Ii as [q Eq]. eapply in_vars; [exact Eq|exact Lb|apply out_in_vars; exact Io].
+    Qed.
+
+    Lemma instr_other : forall f b pc, f <> cf -> instr_at P' f b pc = instr_at P f b pc.
+    Proof. intros f b pc Nf. unfold instr_at. rewrite P'_other by exact Nf. reflexivity. Qed.
+
+    Lemma instr_site : instr_at P' cf sb idx = Some (mkI "jmp" [OLab base] []).
+    Proof.
+      rewrite instr_F'. rewrite (F'_low sb sb_lt). unfold blk1. rewrite Nat.eqb_refl. apply fixb_nth; [|reflexivity].
+      pose proof (nth_error_lt _ _ _ _ Hinv) as Lt.
+      assert (Lp : List.length pre = idx) by (unfold pre; rewrite firstn_length; lia).
+      rewrite nth_error_app2 by lia. rewrite Lp, Nat.sub_diag. reflexivity.
+    Qed.
+    Lemma nG_pos : 0 < nG.
+    Proof. destruct calleeG as [b0 [rest [EG _]]]. unfold nG. rewrite EG. cbn. lia. Qed.
+    Lemma enter_clone0 : forall e', enter (nth_block F' (N.to_nat base)) sb e' = Some (e', 0).
+    Proof.
+      intros e'. replace (N.to_nat base) with (n + 1 + 0) by (unfold base, nN; lia). rewrite (F'_clone 0 nG_pos).
+      unfold cloneb. fold nGN. unfold ISyn.enter. rewrite lead_phis_clone.
+      destruct calleeG as [b0 [rest [EG [_ [_ [_ [Lp _]]]]]]]. unfold nth_block. rewrite EG. cbn [nth]. rewrite Lp. reflexivity.
+    Qed.
+
+    Definition sim_stmt (f b pc : nat) (e : env) (pend : list Z) (w : Wd) (res : result Wd) : Prop :=
+      (f <> cf -> exec P' f b pc e pend w res) /\
+      (f = cf -> forall e', dom_in e VF -> e <<= e' -> exec P' cf (pmb b pc) (pmp b pc) e' pend w res).
+
+    Lemma callee_run : forall h pend w res, sim_stmt h 0 0 empty_env pend w res -> exec P' h 0 0 empty_env pend w res.
+    Proof.
+      intros h pend w res [S1 S2]. destruct (Nat.eq_dec h cf) as [->|Nh]; [|auto].
+      destruct pm_entry as [A Bq]. specialize (S2 eq_refl empty_env (dom_empty _) (ext_refl _)). rewrite A, Bq in S2. exact S2.
+    Qed.
+
+    Lemma label_lt : forall b pc i l, instr_at P cf b pc = Some i -> is_op "jmp" i || is_op "jnz" i = true -> In (OLab l) (i_args i) -> N.to_nat l < n.
+    Proof.
+      intros b pc i l E J I. rewrite instr_F in E. pose proof (block_ok_F b (block_lt _ _ _ E)) as K. unfold block_ok in K.
+      apply andb_prop in K. destruct K as [_ K]. rewrite forallb_forall in K. specialize (K i (nth_error_In _ _ E)).
+      assert (Ln : (l < nN)%N); [|unfold nN in Ln; lia].
+      destruct (is_op "jmp" i) eqn:J1.
+      - destruct (i_args i) as [|[z|x|l1] [|]]; try discriminate. destruct I as [I|[]]. inversion I; subst l1. apply N.ltb_lt. exact K.
+      - cbn [orb] in J. rewrite J in K.
+        destruct (i_args i) as [|c [|[z|x|t] [|[z2|x2|fl] [|]]]]; try discriminate.
+        apply andb_prop in K. destruct K as [K K3]. apply andb_prop in K. destruct K as [K1 K2]. apply N.ltb_lt in K1. apply N.ltb_lt in K2.
+        destruct I as [I|[I|[I|[]]]].
+        + subst c. discriminate.
+        + inversion I; subst. exact K1.
+        + inversion I; subst. exact K2.
+    Qed.
+    Lemma label_lt_djmp : forall b pc tgt labs l, instr_at P cf b pc = Some (mkI "djmp" (tgt :: labs) []) -> In (OLab l) labs -> N.to_nat l < n.
+    Proof.
+      intros b pc tgt labs l E I. rewrite instr_F in E. pose proof (block_ok_F b (block_lt _ _ _ E)) as K. unfold block_ok in K.
+      apply andb_prop in K. destruct K as [_ K]. rewrite forallb_forall in K. specialize (K _ (nth_error_In _ _ E)).
+      cbn in K. rewrite forallb_forall in K. specialize (K _ I). cbn in K. apply N.ltb_lt in K. unfold nN in K. lia.
+    Qed.
+
+    Lemma param_facts : forall op, is_param_op op = true -> op <> "invoke" /\ String.eqb op "phi" = false.
+    Proof.
+      intros op H. unfold is_param_op in H. cbn [existsb] in H.
+      apply orb_prop in H. destruct H as [H|H]; [apply String.eqb_eq in H; rewrite H; split; [discriminate|reflexivity]|].
+      apply orb_prop in H. destruct H as [H|H]; [apply String.eqb_eq in H; rewrite H; split; [discriminate|reflexivity]|].
+      apply orb_prop in H. destruct H as [H|H]; [apply String.eqb_eq in H; rewrite H; split; [discriminate|reflexivity]|discriminate H].
+    Qed.
+    Lemma modelled_false2 : forall op, modelled op = false -> op <> "invoke".
+    Proof. intros op H E. rewrite E in H. discriminate H. Qed.
+
+    Lemma main_sim : forall f b pc e pend w res, ISyn.exec Wd ext lv P f b pc e pend w res -> sim_stmt f b pc e pend w res.
+    Proof.
+      intros f b pc e pend w res Hex. induction Hex; split.
+      - (* assign *) intros Nf. eapply e_assign; [rewrite instr_other by auto; exact H|exact H0|apply (proj1 IHHex Nf)].
+      - intros -> e2 D X. assert (Ns : ~ (b = sb /\ pc = idx)) by (eapply not_site; [exact H|cbn [i_op]; discriminate]).
+        pose proof (instr_pm _ _ _ H eq_refl Ns) as Hi. destruct (pm_next _ _ Ns) as [A1 A2].
+        eapply e_assign; [exact Hi|eapply oval_ext; eauto|]. rewrite <- A1, <- A2.
+        apply (proj2 IHHex eq_refl); [apply dom_upd; auto; eapply F_outs; [exact H|left; reflexivity]|apply ext_upd; auto].
+      - (* param *) intros Nf. eapply e_param; [rewrite instr_other by auto; exact H|exact H0|apply (proj1 IHHex Nf)].
+      - intros -> e2 D X. destruct (param_facts _ H0) as [Q1 Q2].
+        assert (Ns : ~ (b = sb /\ pc = idx)) by (eapply not_site; [exact H|exact Q1]).
+        pose proof (instr_pm _ _ _ H Q2 Ns) as Hi. destruct (pm_next _ _ Ns) as [A1 A2].
+        eapply e_param; [exact Hi|exact H0|]. rewrite <- A1, <- A2.
+        apply (proj2 IHHex eq_refl); [apply dom_upd; auto; eapply F_outs; [exact H|left; reflexivity]|apply ext_upd; auto].
+      - (* ext *) intros Nf. eapply e_ext; [rewrite instr_other by auto; exact H|exact H0|exact H1|exact H2|exact H3|apply (proj1 IHHex Nf)].
+      - intros -> e2 D X. destruct (modelled_false _ H0) as [_ [_ [M3 _]]].
+        assert (Ns : ~ (b = sb /\ pc = idx)) by (eapply not_site; [exact H|apply modelled_false2; exact H0]).
+        pose proof (instr_pm _ _ _ H M3 Ns) as Hi. destruct (pm_next _ _ Ns) as [A1 A2].
+        destruct (upd_many_ext _ _ _ _ _ X H3) as [e21 [U2 X2]].
+        eapply e_ext; [exact Hi|exact H0|eapply ovals_ext; eauto|exact H2|exact U2|]. rewrite <- A1, <- A2.
+        apply (proj2 IHHex eq_refl); [|exact X2]. eapply dom_upd_many; [exact D| |exact H3]. intros x I. eapply F_outs; eauto.
+      - (* halt *) intros Nf. eapply e_halt; [rewrite instr_other by auto; exact H|exact H0|exact H1|exact H2].
+      - intros -> e2 D X. destruct (modelled_false _ H0) as [_ [_ [M3 _]]].
+        assert (Ns : ~ (b = sb /\ pc = idx)) by (eapply not_site; [exact H|apply modelled_false2; exact H0]).
+        pose proof (instr_pm _ _ _ H M3 Ns) as Hi.
+        eapply e_halt; [exact Hi|exact H0|eapply ovals_ext; eauto|exact H2].
+      - (* jmp *) intros Nf. eapply e_jmp; [rewrite instr_other by auto; exact H|rewrite P'_other by auto; exact H0|apply (proj1 IHHex Nf)].
+      - intros -> e2 D X. assert (Ns : ~ (b = sb /\ pc = idx)) by (eapply not_site; [exact H|cbn [i_op]; discriminate]).
+        pose proof (instr_pm _ _ _ H eq_refl Ns) as Hi.
+        rewrite (HF0 : nth_func P cf = F) in H0.
+        pose proof (label_lt _ _ _ l H eq_refl (or_introl eq_refl)) as Ll.
+        destruct (enter_pm b pc _ l e e2 _ _ H eq_refl (or_introl eq_refl) Ll X H0) as [e21 [En [X1 Post]]].
+        eapply e_jmp; [exact Hi|rewrite P'_cf; exact En|].
+        pose proof (proj2 IHHex eq_refl e21 (enter_dom _ _ _ _ _ Ll D H0) X1) as Q. unfold pmb, pmp in Q. rewrite Post in Q. exact Q.
+      - (* jnz *) intros Nf. eapply e_jnz; [rewrite instr_other by auto; exact H|exact H0|rewrite P'_other by auto; exact H1|apply (proj1 IHHex Nf)].
+      - intros -> e2 D X. assert (Ns : ~ (b = sb /\ pc = idx)) by (eapply not_site; [exact H|cbn [i_op]; discriminate]).
+        pose proof (instr_pm _ _ _ H eq_refl Ns) as Hi.
+        rewrite (HF0 : nth_func P cf = F) in H1.
+        assert (Il : In (OLab l) [c; OLab t; OLab fl]) by (unfold l; destruct (Z.eqb v 0); [right; right; left|right; left]; reflexivity).
+        pose proof (label_lt _ _ _ l H eq_refl Il) as Ll.
+        destruct (enter_pm b pc _ l e e2 _ _ H eq_refl Il Ll X H1) as [e21 [En [X1 Post]]].
+        eapply e_jnz; [exact Hi|eapply oval_ext; eauto|rewrite P'_cf; exact En|].
+        pose proof (proj2 IHHex eq_refl e21 (enter_dom _ _ _ _ _ Ll D H1) X1) as Q. unfold pmb, pmp in Q. rewrite Post in Q. exact Q.
+      - (* djmp *) intros Nf. eapply e_djmp; [rewrite instr_other by auto; exact H|exact H0|exact H1|exact H2|rewrite P'_other by auto; exact H3|apply (proj1 IHHex Nf)].
+      - intros -> e2 D X. assert (Ns : ~ (b = sb /\ pc = idx)) by (eapply not_site; [exact H|cbn [i_op]; discriminate]).
+        pose proof (instr_pm _ _ _ H eq_refl Ns) as Hi.
+        rewrite (HF0 : nth_func P cf = F) in H3.
+        pose proof (label_lt_djmp _ _ _ _ l H H1) as Ll.
+        destruct (enter_pm b pc _ l e e2 _ _ H eq_refl (or_intror H1) Ll X H3) as [e21 [En [X1 Post]]].
+        eapply e_djmp; [exact Hi|eapply oval_ext; eauto|exact H1|exact H2|rewrite P'_cf; exact En|].
+        pose proof (proj2 IHHex eq_refl e21 (enter_dom _ _ _ _ _ Ll D H3) X1) as Q. unfold pmb, pmp in Q. rewrite Post in Q. exact Q.
+      - (* invoke *) intros Nf.
+        eapply e_invoke; [rewrite instr_other by auto; exact H|exact H0|apply callee_run; exact IHHex1|exact H1|apply (proj1 IHHex2 Nf)].
+      - intros -> e2 D X.
+        assert (De : dom_in e' VF) by (eapply dom_upd_many; [exact D| |exact H1]; intros x I; eapply F_outs; eauto).
+        destruct (upd_many_ext _ _ _ _ _ X H1) as [e21 [U2 X2]].
+        destruct (Nat.eq_dec b sb) as [Eb|Nb]; [destruct (Nat.eq_dec pc idx) as [Ep|Np]|].
+        + (* the inlined call site *)
+          subst b pc. pose proof H as H'. rewrite instr_F in H'. fold B in H'. rewrite Hinv in H'. inversion H' as [[Eg Ea Eo]].
+          assert (g0 = g) by lia. subst g0 args0 outs0. clear H' Eg.
+          destruct pm_site as [A1 A2]. rewrite A1, A2.
+          eapply e_jmp; [exact instr_site|rewrite P'_cf; apply enter_clone0|].
+          replace (N.to_nat base) with (n + 1 + 0) by (unfold base, nN; lia).
+          assert (Hb : ovals e bind = Some (avs ++ [lv (FB + N.of_nat g)%N])) by (unfold bind; apply ovals_app; [exact H0|reflexivity]).
+          eapply (clone_sim e pend r0 _ D Hb g 0 0 empty_env _ w _ (callee_run _ _ _ _ IHHex1) eq_refl e2);
+            [split; [intros x v0 Q; discriminate Q|exact X]|apply dom_empty|intros _; reflexivity|].
+          intros ecv efin Um Hx. rewrite H1 in Um. inversion Um; subst ecv.
+          destruct pm_after as [B1 B2]. pose proof (proj2 IHHex2 eq_refl efin De Hx) as Q. rewrite B1, B2 in Q. exact Q.
+        + assert (Ns : ~ (b = sb /\ pc = idx)) by (intros [_ Q]; contradiction).
+          pose proof (instr_pm _ _ _ H eq_refl Ns) as Hi. destruct (pm_next _ _ Ns) as [A1 A2].
+          eapply e_invoke; [exact Hi|eapply ovals_ext; eauto|apply callee_run; exact IHHex1|exact U2|]. rewrite <- A1, <- A2.
+          apply (proj2 IHHex2 eq_refl); auto.
+        + assert (Ns : ~ (b = sb /\ pc = idx)) by (intros [Q _]; contradiction).
+          pose proof (instr_pm _ _ _ H eq_refl Ns) as Hi. destruct (pm_next _ _ Ns) as [A1 A2].
+          eapply e_invoke; [exact Hi|eapply ovals_ext; eauto|apply callee_run; exact IHHex1|exact U2|]. rewrite <- A1, <- A2.
+          apply (proj2 IHHex2 eq_refl); auto.
+      - (* invoke that halts *) intros Nf.
+        eapply e_invoke_halt; [rewrite instr_other by auto; exact H|exact H0|apply callee_run; exact IHHex].
+      - intros -> e2 D X.
+        destruct (Nat.eq_dec b sb) as [Eb|Nb]; [destruct (Nat.eq_dec pc idx) as [Ep|Np]|].
+        + subst b pc. pose proof H as H'. rewrite instr_F in H'. fold B in H'. rewrite Hinv in H'. inversion H' as [[Eg Ea Eo]].
+          assert (g0 = g) by lia. subst g0 args0 outs0. clear H' Eg.
+          destruct pm_site as [A1 A2]. rewrite A1, A2.
+          eapply e_jmp; [exact instr_site|rewrite P'_cf; apply enter_clone0|].
+          replace (N.to_nat base) with (n + 1 + 0) by (unfold base, nN; lia).
+          assert (Hb : ovals e bind = Some (avs ++ [lv (FB + N.of_nat g)%N])) by (unfold bind; apply ovals_app; [exact H0|reflexivity]).
+          eapply (clone_sim e pend _ _ D Hb g 0 0 empty_env _ w _ (callee_run _ _ _ _ IHHex) eq_refl e2);
+            [split; [intros x v0 Q; discriminate Q|exact X]|apply dom_empty|intros _; reflexivity|].
+          reflexivity.
+        + assert (Ns : ~ (b = sb /\ pc = idx)) by (intros [_ Q]; contradiction).
+          pose proof (instr_pm _ _ _ H eq_refl Ns) as Hi.
+          eapply e_invoke_halt; [exact Hi|eapply ovals_ext; eauto|apply callee_run; exact IHHex].
+        + assert (Ns : ~ (b = sb /\ pc = idx)) by (intros [Q _]; contradiction).
+          pose proof (instr_pm _ _ _ H eq_refl Ns) as Hi.
+          eapply e_invoke_halt; [exact Hi|eapply ovals_ext; eauto|apply callee_run; exact IHHex].
+      - (* ret *) intros Nf. eapply e_ret; [rewrite instr_other by auto; exact H|exact H0].
+      - intros -> e2 D X. assert (Ns : ~ (b = sb /\ pc = idx)) by (eapply not_site; [exact H|cbn [i_op]; discriminate]).
+        pose proof (instr_pm _ _ _ H eq_refl Ns) as Hi.
+        eapply e_ret; [exact Hi|eapply ovals_ext; eauto].
+    Qed.
+
+    Lemma inline_forward : forall F2 h pend w res, inline_spec F G sb idx r = Some F2 ->
+      ISyn.exec Wd ext lv P h 0 0 empty_env pend w res -> exec (set_nth P cf F2) h 0 0 empty_env pend w res.
+    Proof.
+      intros F2 h pend w res E Hex. rewrite spec_is in E. injection E as <-. apply callee_run. apply main_sim. exact Hex.
+    Qed.
   End Inline.
+
+  (* ---------- reflection of the checker ---------- *)
+  Lemma list_eqb_eq : forall (A : Type) (eqb : A -> A -> bool), (forall a b, eqb a b = true -> a = b) ->
+    forall l m, list_eqb eqb l m = true -> l = m.
+  Proof.
+    intros A eqb H. induction l as [|a l IH]; intros [|b m] E; cbn [list_eqb] in E; try discriminate; [reflexivity|].
+    apply andb_prop in E. destruct E as [E1 E2]. f_equal; auto.
+  Qed.
+  Lemma operand_eqb_eq : forall a b, operand_eqb a b = true -> a = b.
+  Proof.
+    intros [x|x|x] [y|y|y] E; cbn [operand_eqb] in E; try discriminate; f_equal; [apply Z.eqb_eq|apply N.eqb_eq|apply N.eqb_eq]; exact E.
+  Qed.
+  Lemma inst_eqb_eq : forall a b, inst_eqb a b = true -> a = b.
+  Proof.
+    intros [o1 a1 u1] [o2 a2 u2] E. unfold inst_eqb in E. cbn [i_op i_args i_outs] in E.
+    apply andb_prop in E. destruct E as [E E3]. apply andb_prop in E. destruct E as [E1 E2].
+    apply String.eqb_eq in E1. apply (list_eqb_eq _ _ operand_eqb_eq) in E2.
+    apply (list_eqb_eq _ _ (fun a b H => proj1 (N.eqb_eq a b) H)) in E3. subst. reflexivity.
+  Qed.
+  Lemma func_eqb_eq : forall a b, func_eqb a b = true -> a = b.
+  Proof. apply list_eqb_eq. apply list_eqb_eq. exact inst_eqb_eq. Qed.
+
+  (* Soundness of the inlining validator.  P: any program whose function cf is F and whose function g is G.  If the
+     checker accepts (F, G, call site (sb, idx), renaming certificate r, transformed caller F2) then every complete run
+     of any function h of P -- for every interpretation ext of the non-control instructions, every world and all
+     pending arguments -- is also a run of the program in which F is replaced by F2, with the same result (returned
+     values / halting instruction with its operands, and final world). *)
+  Theorem inline_check_sound_main : forall (P : prog) (F G F2 : func) (cf g sb idx : nat) (r : rho),
+    nth_func P cf = F -> nth_func P g = G -> inline_check F G cf g sb idx r F2 = true ->
+    forall h pend w res, exec P h 0 0 empty_env pend w res -> exec (set_nth P cf F2) h 0 0 empty_env pend w res.
+  Proof.
+    intros P F G F2 cf g sb idx r HF HG H h pend w res Hex. unfold inline_check in H.
+    destruct (nth_error (nth_block F sb) idx) as [[op iargs iouts]|] eqn:Hinv; [|discriminate].
+    cbn [i_op i_args i_outs] in H. apply andb_prop in H. destruct H as [Hop H]. apply String.eqb_eq in Hop. subst op.
+    destruct iargs as [|[z|x|gl] args]; try discriminate.
+    apply andb_prop in H. destruct H as [H Hspec]. apply andb_prop in H. destruct H as [H Hfresh].
+    apply andb_prop in H. destruct H as [H Hinj2]. apply andb_prop in H. destruct H as [H Hinj1].
+    apply andb_prop in H. destruct H as [H Htot]. apply andb_prop in H. destruct H as [H Hbig].
+    apply andb_prop in H. destruct H as [H Hnolab]. apply andb_prop in H. destruct H as [H HokG].
+    apply andb_prop in H. destruct H as [H HokF]. apply andb_prop in H. destruct H as [H HlabG].
+    apply andb_prop in H. destruct H as [H HlabF]. apply andb_prop in H. destruct H as [H Hcallee].
+    apply andb_prop in H. destruct H as [Hgl Hne]. apply N.eqb_eq in Hgl. subst gl.
+    apply negb_true_iff in Hne. apply Nat.eqb_neq in Hne. apply N.ltb_lt in Hbig.
+    destruct (inline_spec F G sb idx r) as [Fs|] eqn:Es; [|discriminate]. apply func_eqb_eq in Hspec. subst F2.
+    assert (Htot' : forall x, In x (func_vars G) -> exists y, rget r x = Some y).
+    { intros x Ix. rewrite forallb_forall in Htot. specialize (Htot x Ix). destruct (rget r x) as [y|]; [eauto|discriminate]. }
+    assert (Hfresh' : forall y, In y (map snd r) -> ~ In y (func_vars F)).
+    { intros y Iy J. rewrite forallb_forall in Hfresh. specialize (Hfresh y Iy). apply negb_true_iff in Hfresh.
+      apply memN_In in J. congruence. }
+    eapply inline_forward with (F := F) (G := G) (g := g) (sb := sb) (idx := idx) (r := r) (args := args) (outs := iouts);
+      try eassumption; try exact HF; try exact HG.
+  Qed.
 End Proofs.
